@@ -1255,6 +1255,23 @@ class Walker:
 
     def e_Attribute(self, node, st):
         d = dotted(node)
+        if d and d.startswith("self.") and d.count(".") == 1 and self.frame[1] is not None and isinstance(node.ctx, ast.Load) \
+                and norm(node) not in st.facts:
+            # a property of the class: reading it runs the getter
+            m = self.prog.resolve_method(self.frame[1], node.attr)
+            if m is not None and any((dotted(dc) or "").split(".")[-1] in ("property", "cached_property") for dc in m.node.decorator_list) \
+                    and st.depth < self.max_depth and m not in st.stack:
+                tgt = Target("repo", d, funcs=[m], bound_cls=self.frame[1])
+                if self.inline(m, tgt, st.depth):
+                    call = getattr(node, "_pgv_propcall", None)
+                    if call is None:
+                        call = ast.Call(func=node, args=[], keywords=[])
+                        ast.copy_location(call, node)
+                        try:
+                            node._pgv_propcall = call
+                        except Exception:
+                            pass
+                    return self._inline(call, tgt, m, [], {}, st)
         if d and d.startswith("self.") and d.count(".") == 1 and self.frame[1] is not None:
             a = self.prog.class_attr(self.frame[1], node.attr)
             if a is not None and not _attr_assigned_anywhere(self.prog, self.frame[1], node.attr):
